@@ -1,8 +1,8 @@
 ---------------------------- MODULE MCBitVector ----------------------------
 EXTENDS BitVector
 MCLens == {1, 3, 8}
-MCLensThorough == 1..10
-MCLensRich == {3, 8, 9}
+MCLensThorough == 1..8
+MCLensRich == {2, 5, 8}
 MCSlacks == {0, 1}
 MCSlacksThorough == {0, 1}
 =============================================================================
